@@ -345,10 +345,10 @@ fn run_cols(v: &[u64]) {
 // ------------------------------------------------------------------------------------------------ collapse (C11)
 // args: s0 s1 s2 (strings from a 3-element domain so that repeats are frequent), boundary (0 none, 1 clear, 2 merge, 3 clone), depth (0 top, 1 over CIP, 2 in tuple, 3 in slice)
 fn pre_collapse(v: &[u64]) -> bool {
-    v[0] < 3 && v[1] < 3 && v[2] < 3 && v[3] < 5 && v[4] < 4
+    v[0] < 3 && v[1] < 3 && v[2] < 3 && v[3] < 6 && v[4] < 5
 }
 fn doms_collapse() -> Vec<Vec<u64>> {
-    vec![range(3), range(3), range(3), range(5), range(4)]
+    vec![range(3), range(3), range(3), range(6), range(5)]
 }
 fn used<R: Region>(r: &R) -> usize {
     collect_heap(|cb| r.heap_size(cb)).iter().map(|p| p.0).sum()
@@ -412,6 +412,27 @@ where
             }
             vassert!(i2 == fresh_idx, "VF:collapse.after_merge_like_fresh");
         }
+        5 => {
+            // pre-sizing between two pushes is not a boundary: an equal item still collapses, a different one is stored
+            crate::section("VF:collapse.reserve");
+            let other = {
+                let mut o = R::default();
+                let _ = o.push(s[2]);
+                o
+            };
+            r.reserve_regions(std::iter::once(&other));
+            let u = used(&r);
+            let i2 = r.push(s[1]);
+            vassert!(i2 == i1 && used(&r) == u, "VF:collapse.reserve.equal_not_collapsed_after_reserve_regions");
+            r.reserve_regions(std::iter::empty());
+            let i3 = r.push(s[1]);
+            vassert!(i3 == i1, "VF:collapse.reserve.equal_not_collapsed_after_reserve_regions");
+            let i4 = r.push(s[2]);
+            if s[2] != s[1] {
+                vassert!(i4 != i3, "VF:collapse.reserve.different_item_collapsed");
+            }
+            vassert!(r.index(i0) == s[0] && r.index(i3) == s[1] && r.index(i4) == s[2], "VF:collapse.reserve.reads");
+        }
         4 => {
             // clone_from into a destination with its own, different history must behave exactly like clone
             crate::section("VF:collapse.clone_from");
@@ -453,6 +474,32 @@ fn run_collapse(v: &[u64]) {
             }
             vassert!(a.1 != b.1, "VF:collapse.tuple.other_field_stored");
             vassert!(r.index(a) == (pool[v[0] as usize], [1u8, 2].as_slice()) && r.index(b) == (pool[v[1] as usize], [3u8].as_slice()), "VF:collapse.tuple.reads");
+        }
+        4 => {
+            // over a Huffman container in its encoded generation, fed decoded (owned-borrowed) read items: the stored
+            // previous item is encoded, the pushed one is not; prefixes and extensions are not equal
+            use flatcontainer::impls::huffman_container::HuffmanContainer;
+            use flatcontainer::IntoOwned;
+            crate::section("VF:collapse.huffman");
+            type HR = CollapseSequence<HuffmanContainer<u8>>;
+            let pool: [Vec<u8>; 3] = [vec![1, 2, 3, 1, 2], vec![1, 2, 3], vec![]];
+            let mut raw = HR::default();
+            for x in pool.iter() {
+                let _ = raw.push(<<HR as Region>::ReadItem<'_> as IntoOwned>::borrow_as(x));
+            }
+            let mut r = HR::merge_regions(std::iter::once(&raw));
+            let items = [&pool[v[0] as usize], &pool[v[1] as usize], &pool[v[2] as usize]];
+            let mut idx = Vec::new();
+            for (k, x) in items.iter().enumerate() {
+                let i = r.push(<<HR as Region>::ReadItem<'_> as IntoOwned>::borrow_as(*x));
+                if k > 0 && items[k - 1] == *x {
+                    vassert!(i == idx[k - 1], "VF:collapse.huffman.equal_returns_previous_index");
+                }
+                idx.push(i);
+                for (j, w) in idx.iter().zip(items.iter()) {
+                    vassert!(r.index(*j).into_owned() == **w, "VF:collapse.huffman.reads");
+                }
+            }
         }
         _ => {
             // inside a slice region: elements of one item and across items
@@ -510,6 +557,24 @@ fn run_sio(v: &[u64]) {
     same(&r, i0, x);
     same(&r, i1, y);
     vassert!(i0 == (0, x.len()) && i1 == (x.len(), all.len()), "VF:slice_opt.index");
+    // C20: the bulk forms (IndexContainer::extend) and the element-wise forms (read items) are interchangeable
+    let mut twin = R::default();
+    let mut feed = |t: &mut R, w: &[usize], form: u64| match form {
+        0 => t.push(w),
+        1 => t.push(w.to_vec()),
+        _ => {
+            let mut o = R::default();
+            let j = o.push(w);
+            t.push(o.index(j))
+        }
+    };
+    let j0 = feed(&mut twin, x, (v[6] + 1) % 3);
+    let j1 = feed(&mut twin, y, (v[6] + 2) % 3);
+    vassert!((i0, i1) == (j0, j1), "VF:slice_opt.forms.index");
+    let dump = |t: &R, i: (usize, usize)| -> Vec<usize> { t.index(i).iter().collect() };
+    vassert!(dump(&r, i0) == dump(&twin, j0) && dump(&r, i1) == dump(&twin, j1), "VF:slice_opt.forms.reads");
+    let heap = |t: &R| -> usize { collect_heap(|cb| t.heap_size(cb)).iter().map(|p| p.0).sum() };
+    vassert!(heap(&r) == heap(&twin), "VF:slice_opt.forms.used_bytes");
 }
 
 // ------------------------------------------------------------------------------------------------ OwnedRegion: every input form against the canonical one
@@ -607,8 +672,8 @@ pub fn harnesses() -> Vec<H> {
     vec![
         H { name: "slice_roundtrip", props: &["C01", "C02", "C20", "C10"], nargs: 10, pre: pre_slice_rt, doms: doms_slice_rt, run: run_slice_rt, panic_ok: false,
             bound: "SliceRegion<MirrorRegion<u8>>: two items of length 0..3, element bytes arbitrary (native: {0,1,255}), seven input forms (slice, Vec, &Vec, &&Vec, [T;N], &[T;N], &&[T;N]), optional reserve_items/reserve_regions in between; twin fed the canonical form", kani: false },
-        H { name: "slice_index_optimized", props: &["C01", "C02", "C03", "C05"], nargs: 7, pre: pre_sio, doms: doms_sio, run: run_sio, panic_ok: false,
-            bound: "SliceRegion<MirrorRegion<usize>, IndexOptimized>: five inner indices over a 10-value alphabet {0..7, u32::MAX, u32::MAX+1} split into two items at any point (IndexContainer::extend inside one push), three input forms; both items re-read after each push", kani: false },
+        H { name: "slice_index_optimized", props: &["C01", "C02", "C03", "C05", "C20"], nargs: 7, pre: pre_sio, doms: doms_sio, run: run_sio, panic_ok: false,
+            bound: "SliceRegion<MirrorRegion<usize>, IndexOptimized>: five inner indices over a 10-value alphabet {0..7, u32::MAX, u32::MAX+1} split into two items at any point (IndexContainer::extend inside one push), three input forms; both items re-read after each push; indices, reads and used bytes compared with a twin fed the same items in the other forms", kani: false },
         H { name: "owned_forms", props: &["C20", "C01", "C02"], nargs: 6, pre: pre_of, doms: doms_of, run: run_of, panic_ok: false,
             bound: "OwnedRegion<u8>: all eight input forms ([T;N], PushIter x2, Vec, &Vec, &&[T], &[T;N], &&[T;N]) versus &[T] on twins; item length 0..3 or 40 (longer than any capacity reached before); region pre-filled with 0..2 items, which are re-read", kani: false },
         H { name: "string_forms", props: &["C20", "C04", "C01"], nargs: 3, pre: pre_sf, doms: doms_sf, run: run_sf, panic_ok: false,
@@ -622,6 +687,6 @@ pub fn harnesses() -> Vec<H> {
         H { name: "columns_ragged", props: &["C12", "C01", "C02", "C13", "C20"], nargs: 6, pre: pre_cols, doms: doms_cols, run: run_cols, panic_ok: true,
             bound: "ColumnsRegion<MirrorRegion<u8>> with IndexOptimized and Vec<usize> offsets: three rows of width 0..3 in any order, eight input forms (slice, Vec, &Vec, PushIter over an exact and over an inexact-size_hint iterator, read item of another region, [T;N], &[T;N]), compared with a twin fed slices, rotated over the rows, all rows re-read after every push, out-of-bounds probe at any position", kani: false },
         H { name: "collapse_boundaries", props: &["C11", "C08", "C09", "C10"], nargs: 5, pre: pre_collapse, doms: doms_collapse, run: run_collapse, panic_ok: false,
-            bound: "CollapseSequence at the top, over ConsecutiveIndexPairs, inside a tuple and inside a slice region: three strings over a 3-value domain; boundaries none / clear / merge_regions / clone / clone_from into a pre-filled destination", kani: false },
+            bound: "CollapseSequence at the top, over ConsecutiveIndexPairs, inside a tuple and inside a slice region: three strings over a 3-value domain; boundaries none / clear / merge_regions / clone / clone_from into a pre-filled destination / reserve_regions between pushes; and over an encoded HuffmanContainer fed decoded read items (prefix / extension / empty)", kani: false },
     ]
 }
